@@ -248,15 +248,19 @@ Section Grow.
   Qed.
 
   (* ---- a new immediate binding object (not yet installed in a property) ---- *)
-  Lemma make_binding_grow w e w1 b :
-    pinv w -> make_binding fn rtl w e MImmediate = inl (w1, b) ->
+  (* any evaluation mode: the new binding is registered with the immediate evaluator (index 0) or with the explicit one *)
+  Lemma make_binding_grow_m w e m w1 b :
+    pinv w -> make_binding fn rtl w e m = inl (w1, b) ->
     GR w w1 /\ b = length (w_binds w) /\
-    exists xb, get_bind w1 b = Some xb /\ b_evp xb = 0 /\ b_target xb = None /\
+    exists xb, get_bind w1 b = Some xb /\
+      match m with MImmediate => b_evp xb = 0 | MEvaluator ev => lookup (w_bevs w) ev = Some (b_evp xb) end /\ b_target xb = None /\
       (forall env q, (forall p v, values w p = Some v -> env p = v) ->
          exists T, abs_tree (b_root xb) = Some T /\ A.clean T /\ A.consis F1 F2 F3 env [] q T /\
                    (forall p lid, In (p, lid) (A.leaves T) -> values w1 p = Some (env p))).
   Proof.
-    intros Hinv H. unfold make_binding in H. destruct (nth_error (w_evps w) 0) as [st|]; [|discriminate H].
+    intros Hinv H. unfold make_binding in H.
+    destruct (match m with MImmediate => Some 0 | MEvaluator ev => lookup (w_bevs w) ev end) as [ep|] eqn:Hep; [|discriminate H].
+    destruct (nth_error (w_evps w) ep) as [st|]; [|discriminate H].
     set (b0 := length (w_binds w)) in *.
     destruct (build fn rtl w b0 0 e) as [[[[w1' root] n1]|]|ex] eqn:Hb; try discriminate H. inversion H; subst w1 b; clear H.
     assert (H0 : BI (w_serial w) b0 0 [] [] w).
@@ -272,7 +276,7 @@ Section Grow.
       - constructor.
       - intros lf h []. }
     destruct (build_grow _ _ _ _ _ _ _ _ _ H0 Hb) as [G T]. destruct (build_BI fn rtl _ _ _ _ _ _ _ _ _ H0 Hb) as (_ & B1 & _).
-    set (nb := {| b_root := root; b_evp := 0; b_regid := S (ep_next st); b_target := None; b_alive := true |}).
+    set (nb := {| b_root := root; b_evp := ep; b_regid := S (ep_next st); b_target := None; b_alive := true |}).
     match goal with |- GR _ ?W /\ _ => set (w3 := W) in * end.
     assert (Gb : forall b', b' < b0 -> get_bind w3 b' = get_bind w1' b').
     { intros b' Hlt. unfold get_bind, w3; cbn [set_binds set_evps w_binds]. rewrite nth_error_app1 by (rewrite B1; exact Hlt). reflexivity. }
@@ -291,15 +295,24 @@ Section Grow.
         destruct (pi_upd _ _ _ _ _ _ _ Hinv1 _ _ _ Ev Eu (fun z => z)) as (ls & Eb). unfold bview in Eb. rewrite Eg in Eb. discriminate Eb.
       - intros b'. unfold imm. destruct (Nat.lt_ge_cases b' b0) as [Hlt|Hge]; [rewrite Gb by exact Hlt; reflexivity|].
         assert (En : get_bind w1' b' = None) by (unfold get_bind; replace (nth_error (w_binds w1') b') with (@None binding); [reflexivity|symmetry; apply nth_error_None; rewrite B1; exact Hge]).
-        rewrite En. destruct (Nat.eq_dec b' b0) as [->|Hne]; [rewrite Gn; reflexivity|].
+        rewrite En. destruct (Nat.eq_dec b' b0) as [->|Hne]; [rewrite Gn; cbn [nb b_evp b_target]; destruct (Nat.eqb ep 0); reflexivity|].
         unfold get_bind, w3; cbn [set_binds set_evps w_binds]. replace (nth_error (w_binds w1' ++ [nb]) b') with (@None binding); [reflexivity|].
         symmetry. apply nth_error_None. rewrite app_length, B1. cbn. unfold b0 in *. lia.
       - intros p0 [q l] Hi. apply in_ORD in Hi. destruct Hi as (t & pos & ser & b' & Ho & Hs & Hi). apply in_ORD. exists t, pos, ser, b'. split; [exact Ho|]. split; [exact Hs|].
         unfold imm in *. destruct (get_bind w1' b') as [x'|] eqn:Eg; [|discriminate Hi]. rewrite Gold by congruence. rewrite Eg. exact Hi.
       - auto. }
-    split; [eapply GR_trans; eauto|]. split; [reflexivity|]. exists nb. split; [exact Gn|]. split; [reflexivity|]. split; [reflexivity|].
+    split; [eapply GR_trans; eauto|]. split; [reflexivity|]. exists nb. split; [exact Gn|]. split; [destruct m; [inversion Hep; subst ep; reflexivity|exact Hep]|]. split; [reflexivity|].
     intros env q Henv. destruct (T env q Henv) as (T0 & E0 & C0 & N0 & V0). exists T0. repeat split; auto.
   Qed.
+
+  Lemma make_binding_grow w e w1 b :
+    pinv w -> make_binding fn rtl w e MImmediate = inl (w1, b) ->
+    GR w w1 /\ b = length (w_binds w) /\
+    exists xb, get_bind w1 b = Some xb /\ b_evp xb = 0 /\ b_target xb = None /\
+      (forall env q, (forall p v, values w p = Some v -> env p = v) ->
+         exists T, abs_tree (b_root xb) = Some T /\ A.clean T /\ A.consis F1 F2 F3 env [] q T /\
+                   (forall p lid, In (p, lid) (A.leaves T) -> values w1 p = Some (env p))).
+  Proof. intros Hinv H. exact (make_binding_grow_m w e MImmediate w1 b Hinv H). Qed.
 
 
   Lemma values_lookup w p v : values w p = Some v <-> exists pr, lookup (w_props w) p = Some pr /\ pr_value pr = v.
